@@ -19,6 +19,7 @@ import (
 
 	"github.com/rs/zerolog"
 
+	"github.com/dadrus/heimdall/internal/zzverif/c19gen"
 	"github.com/dadrus/heimdall/internal/zzverif/vf"
 )
 
@@ -27,6 +28,8 @@ type c19Listener struct{ n atomic.Int64 }
 func (l *c19Listener) OnChanged(zerolog.Logger) { l.n.Add(1) }
 
 func TestVerifC19WatchLoop(t *testing.T) {
+	defer c19gen.Watchdog(t, "watchloop", 60*time.Second)()
+
 	out := vf.NewWriter()
 	defer out.Close()
 
